@@ -76,5 +76,38 @@ def dispatchArray (yss : List (List Rat)) (xs : List Rat) : Except String (List 
       (List.range y0.length).mapM (fun i => dispatch (column yss i) xs)
     else .error "shape"
 
+/-! ### which x values the extrapolation runs in
+`xSelect` (generated from the statements of `extrap_func` that assign `x_l`) decides between the explicit `extrap_x_l`
+argument, the `.extrap_x` attributes of the results, and an error.  What follows is how the rest of the code consumes `x_l`. -/
+
+/-- the k-point formulas unpack `x_l` and do arithmetic with its entries: `None` (as a whole or as an entry) is a
+    TypeError, a name that was never assigned an UnboundLocalError -/
+def xValues {α : Type} : XVal α → Except String (List α)
+  | .unbound => .error "UnboundLocalError"
+  | .pyNone => .error "TypeError:None"
+  | .list l => if l.all Option.isSome then .ok (l.filterMap id) else .error "TypeError:None"
+
+/-- counts whose dispatch branch calls a formula, i.e. reads `x_l` -/
+def usesX (k : Nat) : Bool := formulaTable.any (fun t => t.1 == k)
+
+/-- for the other counts `x_l` is carried along but never read (one grid: identity, no fallback; outside the table:
+    ValueError before any use); the numbers it holds, for the record -/
+def xLoose {α : Type} : XVal α → List α
+  | .list l => l.filterMap id
+  | _ => []
+
+/-- the x list the pipeline works with for `k` grids: explicit argument / attributes of the results / error -/
+def xsFor {α : Type} (explicit : Option (List α)) (attrs : List (XAttr α)) (k : Nat) : Except String (List α) :=
+  match xSelect explicit attrs with
+  | .error e => .error e
+  | .ok xv => if usesX k then xValues xv else .ok (xLoose xv)
+
+/-- one entry: choose the x values, then the `len(pts_l)` dispatch -/
+def xdispatch {α : Type} [Add α] [Sub α] [Mul α] [Div α] [Neg α] [NatCast α]
+    (explicit : Option (List α)) (attrs : List (XAttr α)) (ys : List α) : Except String α :=
+  match xsFor explicit attrs ys.length with
+  | .error e => .error e
+  | .ok xs => dispatch ys xs
+
 end Extrap
 end DadiVerif
